@@ -377,6 +377,25 @@ fn main() {
             };
             placements.push(Placement { res, amt, ids, popped: rng.chance(1, 5) });
         }
+        // aim at the amount-of boundary: a proof with exactly / one atto less than a required amount
+        fn amounts(c: &Comp, out: &mut Vec<(i128, u64)>) {
+            match c {
+                Comp::Basic(Basic::AmountOf(a, r)) => out.push((*a, *r)),
+                Comp::Basic(_) => {}
+                Comp::AnyOf(l) | Comp::AllOf(l) => l.iter().for_each(|c| amounts(c, out)),
+            }
+        }
+        if let Rule::Protected(c) = &rule {
+            let mut am = Vec::new();
+            amounts(c, &mut am);
+            for (a, r) in am {
+                let a = if rng.chance(1, 3) { a - 1 } else { a };
+                let ok = a > 0 && ((r == 1 && a <= 100 * UNIT) || (r == 2 && a <= 10 * UNIT && a % UNIT == 0));
+                if ok && rng.chance(2, 3) {
+                    placements.push(Placement { res: r, amt: a, ids: vec![], popped: rng.chance(1, 8) });
+                }
+            }
+        }
         let drop_sigs = rng.chance(1, 10);
         let simulate = rng.chance(1, 10);
 
